@@ -28,6 +28,12 @@ CLAIMED = {
    note="Trusted: Lean kernel; hand-written batch reader model; item independence of the implementation (reused destination objects) is decided by correspondence only.",
    technique="Lean 4 proof (invariant over read-operation sequences) + differential correspondence",
    design="§7 C17"),
+ "C19": dict(
+   engine="expr",
+   text="Kernel-checked theorems over tables regenerated on every run by executing yardl's own GetCommonType/GetPrimitiveKind on all 324 primitive pairs: static typing is symmetric in operand order, 8/16-bit arithmetic promotes to int32, ** never has an integer type, arithmetic is numeric-only; and the emitters' parenthesisation decision equals the target grammars' criterion for every (target, operator, operand operator, side). Tied to the code by exhaustive typing runs, by re-parsing emitted Python with CPython's parser and emitted MATLAB with MATLAB's precedence rules, and by evaluating generated Python and C++ against the Lean reference evaluation.",
+   note="Trusted: Lean kernel; the table translator (executes the real functions); model of the emitters' decision (tied by correspondence); floats are compared on exactly representable values only; MATLAB is text-level only. Known finding: Python floors integer division.",
+   technique="Lean 4 proof by kernel-checked case analysis over regenerated tables + differential correspondence",
+   design="§7 C19"),
 }
 NOT_YET = "machinery for this property is not built yet in this round (see DESIGN.md §10 build order)"
 checks, na = [], []
@@ -55,6 +61,8 @@ m = {
            "baseline_off_cmd": "cd /repo/tooling && GOFLAGS=-mod=mod GOPROXY=off go test -vet=off -count=1 ./...",
            "source_commits": [], "add_only": True},
  "engines": [
+   {"name": "expr", "path": "lean/YardlModel/Expr.lean", "serves_properties": ["C19"],
+    "kind_free_text": "typing/parenthesisation model of computed fields over tables regenerated from /repo (harness/py/gen_tables.py, harness/go/cmd/inproc)"},
    {"name": "wire", "path": "lean/YardlModel/Wire.lean", "serves_properties": ["C01", "C03", "C15", "C16", "C17"],
     "kind_free_text": "Lean model of the binary format + buffered stream implementations; line-protocol driver lean/Main/WireDriver.lean"},
  ],
